@@ -233,6 +233,28 @@ ADDENDA3 = {
     'C20': 'R20.1 every carrier of the running index is as wide as std::size_t; witness cells w34-w37 (const iterator dereference aliases).',
 }
 
+ADDENDA4 = {
+    'C01': 'R01.12 (= R11.2) and R01.13 (= R13.4) re-evaluated: a toggle token with =value is rejected; the letter-uniqueness check runs on every parse.',
+    'C02': 'R02.8: R14.2 and R12.10 re-evaluated (clean state per parse; raw strings become tokens in one place).',
+    'C03': 'R03.8 the bound variable name is stored verbatim (copy-only carrier of the setter argument).',
+    'C04': 'R04.7 nothing on the options path is declared noexcept and reaches a raise.',
+    'C05': 'R05.4 the threshold object is constant-initialised; R10.4 hand-over obligations re-evaluated.',
+    'C06': 'R06.5 an assignment to size_ never grows the visible range.',
+    'C07': 'R07.2 a move leaves the source empty; R07.8 overload-resolution witness for the four assignment forms.',
+    'C08': 'R08.6 nothing in the formatter / exception machinery is declared noexcept and reaches a raise.',
+    'C09': 'R09.5 the logger instance is one per process (not thread_local); R09.7 (= R10.4) one statement is one sink call.',
+    'C10': 'Witness cells a1-a10 (pack-membership trait, has_attribute at every position); R10.4 log() hands the record over exactly once and unmodified.',
+    'C11': 'R11.9: R04.7 and R12.1 re-evaluated.',
+    'C12': 'R12.9 no narrowing of the accepted count; R12.10 every further parse() overload delegates to parse(argc, argv).',
+    'C13': 'R13.3 short_ is modified only by the guarded setter; R13.7 (= R01.5).',
+    'C15': 'R15.9 no function-local static state on the usage path; R15.2 the default group is found by its key.',
+    'C16': 'R16.6 no function-local static / thread_local state on the hashing path - also under build-time switches unknown to rules/known_macros.txt (configuration sweep).',
+    'C17': 'R17.5 no function-local static / thread_local state in the string helpers.',
+    'C18': 'R18.8 overload-resolution witness: a value of the payload type (nullptr included) engages the optional; witness cells w14-w16 (what quaint_ptr re-exports).',
+    'C19': 'R19.3 dlopen only as the initialiser of an owning handle.',
+    'C20': 'Witness cells w38-w40 (further call forms given a temporary range own it).',
+}
+
 TECH = {
     "C08": "taint-style subject analysis of searches + regex-literal language equality + must-facts on the arity guards + abstract interpretation of the text-assembling loop over symbolic positions",
     "C09": "lock-scope must-dataflow over the CFG + storage/linkage rules for the mutex + acquire-loop typestate check for hand-written lockables + who-may-touch call-graph rule",
@@ -246,6 +268,8 @@ def main():
     for k, v in ADDENDA2.items():
         CLAIMS[k]["text"] = CLAIMS[k]["text"].rstrip() + " " + v
     for k, v in ADDENDA3.items():
+        CLAIMS[k]["text"] = CLAIMS[k]["text"].rstrip() + " " + v
+    for k, v in ADDENDA4.items():
         CLAIMS[k]["text"] = CLAIMS[k]["text"].rstrip() + " " + v
     for k, v in TECH.items():
         CLAIMS[k]["technique"] = v
